@@ -143,17 +143,29 @@ structure Try (α : Type) where
   iters : Nat
   ratio : α
 
+/-- `damped_matrix = matrix + ridge * identity` -/
+def dampA (n s : Nat) (a : A2 α) (ridge : α) : A2 α := tabM n fun i j => rdM a i j + ridge * eyeS s i j
+/-- `identity * z^(1/p)` -/
+def h0A (n s : Nat) (r : α) : A2 α := tabM n fun i j => eyeS s i j * r
+/-- `z = (1 + p) / (2 * ||damped||_F)` -/
+def zOf (c : Cfg α) (froSq : α) : α := (1 + c.pA) / ((1 + 1) * c.sqrt froSq)
+
+/-- the state the inner loop starts from (`new_mat_m_0`, `new_mat_h_0`, `new_error`) -/
+def initSt (n s : Nat) (c : Cfg α) (a : A2 α) (ridge : α) : St α :=
+  let damped := dampA n s a ridge
+  let z := zOf c (froSqA n damped)
+  let m0 := smulA n z damped
+  let h0 := h0A n s (c.rootp z)
+  ⟨0, m0, h0, h0, errA n s m0, 1⟩
+
+/-- after the inner loop: final error, `is_converged * mat_h + (1 - is_converged) * old_mat_h` -/
+def finishTry (n s : Nat) (c : Cfg α) (st : St α) : Try α :=
+  let conv : α := if st.ratio < c.maxRatio then 1 else 0
+  ⟨blendA n conv (1 - conv) st.h st.hOld, errA n s st.m, st.i, st.ratio⟩
+
 /-- `_outer_body_fn` for one ridge value (`matrix` already masked) -/
 def tryRoot (n s : Nat) (c : Cfg α) (a : A2 α) (ridge : α) : Try α :=
-  let damped := tabM n fun i j => rdM a i j + ridge * eyeS s i j
-  let z := (1 + c.pA) / ((1 + 1) * c.sqrt (froSqA n damped))
-  let m0 := smulA n z damped
-  let e0 := errA n s m0
-  let h0 := tabM n fun i j => eyeS s i j * c.rootp z
-  let st := inner n s c c.fuel ⟨0, m0, h0, h0, e0, 1⟩
-  let err := errA n s st.m
-  let conv : α := if st.ratio < c.maxRatio then 1 else 0
-  ⟨blendA n conv (1 - conv) st.h st.hOld, err, st.i, st.ratio⟩
+  finishTry n s c (inner n s c c.fuel (initSt n s c a ridge))
 
 /-- the outer retry loop: try `i` uses the ridge `ridge * 10^i`; stops when the error is below the threshold -/
 def outer (n s : Nat) (c : Cfg α) (a : A2 α) (ridge : α) : Nat → Nat → Try α → Nat × Try α
@@ -284,5 +296,25 @@ def halfVals (pw : α → α) (mask : List Bool) (w : List α) : List α :=
   List.zipWith (fun (mk : Bool) x => if mk then 0 else pw x) mask w
 
 end cut
+
+/-- Tearfree's batched root routine on the stack of all blocks of a tensor: `eig` (external kernel) per block, the
+cut on the stack, `mk` builds `(half * v)(half * v)ᵀ` from the kept half-powers and the eigenvectors -/
+def tfBatched {σ V ρ : Type} [Mul α] [LT α] [DecidableLT α] [Zero α] (eig : σ → List α × V) (mk : List α → V → ρ)
+    (pw : α → α) (eps : α) (stats : List σ) : List ρ :=
+  let wv := stats.map eig
+  let masks := batchedMask eps (wv.map (·.1))
+  List.zipWith (fun (x : List α × V) m => mk (halfVals pw m x.1) x.2) wv masks
+
+/-- the routine on a single matrix -/
+def tfOne {σ V ρ : Type} [Mul α] [LT α] [DecidableLT α] [Zero α] (eig : σ → List α × V) (mk : List α → V → ρ)
+    (pw : α → α) (eps : α) (st : σ) : ρ :=
+  mk (halfVals pw (localMask eps (eig st).1) (eig st).1) (eig st).2
+
+/-- the unrepaired routine (D7): cut relative to the maximum over all blocks -/
+def tfShared {σ V ρ : Type} [Mul α] [LT α] [DecidableLT α] [Zero α] (eig : σ → List α × V) (mk : List α → V → ρ)
+    (pw : α → α) (eps : α) (stats : List σ) : List ρ :=
+  let wv := stats.map eig
+  let masks := sharedMask eps (wv.map (·.1))
+  List.zipWith (fun (x : List α × V) m => mk (halfVals pw m x.1) x.2) wv masks
 
 end PrecondVerif.BlockDiag
